@@ -1,8 +1,9 @@
+import os
 EXPLANATION = ('C12: Box (index lists, bounds validation) and the operation kernels of FieldProps.cpp (apply: EQUALS/MULTIPLY/ADD/MINVALUE/MAXVALUE; assign_deck with defaulted entries) '
-  'on a 2x2x2 grid with symbolic ACTNUM cells, symbolic box corners, operands and value-status flags, compared cell by cell with a reference interpreter on the global array.')
-BOUNDS = '2x2x2 grid (thorough: 3x2x2), 3 cells with symbolic activity + 1 fixed inactive, every sub-box, sequences of two operations (first: harness split, second: symbolic kind), all real operands'
-OUTSIDE = 'scan*Section drivers and keyword dispatch, keyword default tables, COPY and the region variants via the string-keyed maps, the OPERATE driver (its function table is covered), porv/multiplier post-processing, integer arrays'
-ASSUMPTIONS = ['doubles as reals']
+  'on a 2x2x2 grid with symbolic ACTNUM cells, symbolic box corners, operands and value-status flags, compared cell by cell with a reference interpreter on the global array; and the real FieldProps constructor scanning the GRID section of a parser-built deck (EQUALS, COPY, MINVALUE, MAXVALUE, BOX/ENDBOX, top-layer arrays) with symbolic numbers and ACTNUM.')
+BOUNDS = 'section level: one GRID section of 9 keywords on a 3x2x2 grid, 21 symbolic reals, 3 symbolic ACTNUM entries; kernels: 2x2x2 grid (thorough: 3x2x2), 3 cells with symbolic activity + 1 fixed inactive, every sub-box, sequences of two operations (first: harness split, second: symbolic kind), all real operands'
+OUTSIDE = 'scanEDIT/PROPS/REGIONS/SOLUTION/SCHEDULE drivers, keyword default tables, the region variants, the OPERATE driver (its function table is covered), porv/multiplier post-processing, integer arrays'
+ASSUMPTIONS = ['doubles as reals', 'section job: the TableManager passed to the FieldProps constructor is zeroed storage that is never read on the exercised paths', 'section job: numbers are written into the parsed Deck after parsing (DeckItem raw data), before FieldProps reads them']
 TUS = ['opm/input/eclipse/EclipseState/Grid/Box.cpp', 'opm/input/eclipse/EclipseState/Grid/GridDims.cpp', 'opm/input/eclipse/Deck/DeckKeyword.cpp', 'opm/common/OpmLog/KeywordLocation.cpp']
 def jobs(tier):
     out = [dict(name='box', src='h_fieldops.cpp', defs={}, entry='h_box', tus=TUS, fp='real', loopmax=4000, maxsteps=40000000, bounds='every sub-box of the 2x2x2 grid, 8 ACTNUM patterns')]
@@ -18,4 +19,15 @@ def jobs(tier):
     DT = TUS + ['opm/input/eclipse/Deck/DeckRecord.cpp', 'opm/input/eclipse/Deck/DeckItem.cpp', 'opm/input/eclipse/Deck/UDAValue.cpp', 'opm/input/eclipse/Units/Dimension.cpp']
     out.append(dict(name='box_update', src='h_operate.cpp', defs={}, entry='h_box_update', tus=DT, fp='real', loopmax=4000, maxsteps=40000000, opts=['--ctors'], bounds='2x3x4 grid, every given/defaulted pattern of the six corners, corners at the axis ends or one cell inside'))
     out.append(dict(name='operate_functions', src='h_operate.cpp', defs={}, entry='h_operate', tus=['opm/input/eclipse/EclipseState/Grid/Operate.cpp'], fp='real', loopmax=4000, maxsteps=40000000, opts=['--ctors'], bounds='the 14 OPERATE functions, all real R, X, alpha, beta (pow/log uninterpreted)'))
+    ST = ['opm/input/eclipse/Parser/%s.cpp' % n for n in ('Parser', 'raw/RawKeyword', 'raw/RawRecord', 'raw/StarToken', 'ParseContext', 'ErrorGuard', 'InputErrorAction', 'ParserKeyword', 'ParserRecord', 'ParserItem', 'ParserEnums')] + [
+          'opm/input/eclipse/Deck/%s.cpp' % n for n in ('Deck', 'DeckKeyword', 'DeckRecord', 'DeckItem', 'DeckView', 'DeckTree', 'DeckValue', 'DeckOutput', 'DeckSection', 'UDAValue', 'FileDeck', 'ImportContainer')] + [
+          'opm/input/eclipse/Units/%s.cpp' % n for n in ('UnitSystem', 'Dimension')] + [
+          'opm/common/%s.cpp' % n for n in ('OpmLog/OpmLog', 'OpmLog/Logger', 'OpmLog/LogUtil', 'OpmLog/KeywordLocation', 'utility/OpmInputError', 'utility/String', 'utility/shmatch', 'utility/numeric/calculateCellVol')] + [
+          'opm/input/eclipse/Python/Python.cpp', 'opm/input/eclipse/Python/PythonInterp.cpp'] + ['_build/ParserKeywords/%s.cpp' % c for c in 'BCEGMP'] + [
+          'opm/input/eclipse/EclipseState/Grid/%s.cpp' % n for n in ('Box', 'GridDims', 'EclipseGrid', 'Operate', 'FieldData', 'TranCalculator', 'SatfuncPropertyInitializers', 'MinpvMode', 'PinchMode', 'NNC', 'FaceDir')] + [
+          'opm/input/eclipse/EclipseState/Runspec.cpp']
+    out.append(dict(name='grid_section', src='h_section.cpp', defs={}, entry='h_grid_section', tus=ST, fp='real', loopmax=8000, maxsteps=400000000, timeout=900 if tier == 'quick' else 3600, opts=['--ctors'],
+                    bounds='FieldProps(deck, grid) on a 3x2x2 grid, ACTNUM of 3 cells symbolic, all numbers of the GRID section symbolic reals'))
+    if os.environ.get('VERIF_C12_SPLIT'):
+        for w in (1, 2, 3): out.append(dict(out[-1] if w == 1 else out[-w], name='grid_section_w%d' % w, defs={'WHICH': w}))
     return out
